@@ -739,6 +739,8 @@ def selftest(ctx, hist):
 
     muts = (("corrupt_field", corrupt_cmid), ("drop_event", drop_apply),
             ("drop_delivery", drop_delivery), ("double_apply", double_apply))
+    if ctx.quick and not ctx.selftest:
+        muts = (muts[0], muts[2])       # the cheap half on every quick run; all four with --selftest / thorough
     with concurrent.futures.ThreadPoolExecutor(max_workers=4) as ex:
         futs = {nm: ex.submit(tlc_validate, ctx, hist, "self-" + nm, "ClusterTrace.cfg", fn) for nm, fn in muts}
         for nm, fut in futs.items():
@@ -762,9 +764,9 @@ def zero_actions(out):
 
 def design_spec(ctx):
     workers = 4 if ctx.quick else 8
-    runs = [("Cluster_small.cfg", 300), ("Cluster_small2.cfg", 300)]
+    runs = [("Cluster_small.cfg", 300)]
     if not ctx.quick:
-        runs += [("Cluster_cov.cfg", 600), ("Cluster_pauses.cfg", 900), ("Cluster_lc.cfg", 1200), ("Cluster_posts.cfg", 1200), ("Cluster_kills.cfg", 1500)]
+        runs += [("Cluster_small2.cfg", 300), ("Cluster_cov.cfg", 600), ("Cluster_pauses.cfg", 900), ("Cluster_lc.cfg", 1200), ("Cluster_posts.cfg", 1200), ("Cluster_kills.cfg", 1500)]
     for cfg, to in runs:
         r = ctx.tlc_must_pass("Cluster", cfg=cfg, workers=workers, timeout=to, coverage=(cfg == "Cluster_cov.cfg"), name="mc-" + cfg[:-4])
         add(ctx, "states", r.distinct)
@@ -789,8 +791,8 @@ def design_spec(ctx):
 
 def tlc_schedules(ctx, count, nclients=3):
     """Behaviours of Cluster.tla (simulation, history variable) as fault schedules."""
-    r = ctx.tlc("Cluster", cfg="Cluster_sim.cfg", workers=2, simulate="num=%d" % (count * 400), depth=120,
-                timeout=120, name="sim", deadlock=False)
+    r = ctx.tlc("Cluster", cfg="Cluster_sim.cfg", workers=2, simulate="num=%d" % (40 if ctx.quick else count * 400), depth=120,
+                timeout=180, name="sim", deadlock=False)
     add(ctx, "tlc_runs")
     if not r.ok:
         raise vlib.Inconclusive("simulation of Cluster_sim.cfg failed: %s\n%s" % (r.invariant_violated, "\n".join(r.out.splitlines()[-30:])))
@@ -882,6 +884,7 @@ def run(ctx):
     explored = 0
     inconclusive = []
     selftest_done = False
+    selftest_failed = None
     f7_seen = False
     results.sort(key=lambda x: x[0]["name"])
     for out, hist, r, res in results:
@@ -915,13 +918,14 @@ def run(ctx):
             " unexpected_exits=%s" % out["unexpected_exits"] if out.get("unexpected_exits") else ""))
         if out.get("unexpected_exits"):
             ctx.note("%s: node exited on its own: %s" % (name, out["unexpected_exits"]))
-        if verdict == "ok" and not selftest_done and (ctx.selftest or res["sched"]["nodes"] == 1):
+        complete = out["status"] == "ok" and any(e["ev"] == "final" and e["msgs"] for e in hist.events)
+        if verdict == "ok" and complete and not selftest_done and (ctx.selftest or res["sched"]["nodes"] == 1):
             st = selftest(ctx, hist)
             ctx.cov["binding_selftest"] = st
             selftest_done = True
             ctx.log("binding self-test: %s" % json.dumps(st))
             if not st["binds"]:
-                raise vlib.Inconclusive("binding self-test failed: %s" % json.dumps(st))
+                selftest_failed = json.dumps(st)
         if len(ctx.cov["samples"]) < 5 and verdict in ("ok", "known"):
             ctx.sample({"schedule": name, "summary": hist.summary(),
                         "excerpt": [e for e in hist.events if e["ev"] in ("post", "ack", "killed", "start")][:12]})
@@ -929,6 +933,10 @@ def run(ctx):
     ctx.cov["schedules_replayed"] = explored
     ctx.cov["schedules_inconclusive"] = inconclusive
     ctx.cov["f7_reproduced_on_real_binaries"] = f7_seen or any(v["signature"] == F7_SIGNATURE for v in ctx.violations)
+    if ctx.violations:
+        return               # a violation seen on the real binaries is never masked by machinery problems
+    if selftest_failed:
+        raise vlib.Inconclusive("binding self-test failed: %s" % selftest_failed)
     if ctx.selftest and not selftest_done:
         raise vlib.Inconclusive("no accepted trace to run the self-test on")
     need = max(2, (len(scheds) * 2) // 3)
